@@ -102,6 +102,13 @@ def check(ck: Checker) -> None:
     for p in patches:
         pa = lib_args(p)
         pn = next((n for n in g.nodes.values() if any(c is p for c in calls_at(n))), None)
+        if len(pa) == 2 and isinstance(pa[0], ast.Name) and pn is not None:
+            # the concatenation hoisted into a local (`ours_first = our_diff + their_diff`)
+            from ..an import value_alts as _va
+
+            cat = [a_ for a_ in _va(g, pn, pa[0], depth=2) if isinstance(a_, ast.BinOp) and isinstance(a_.op, ast.Add)]
+            if len(cat) == 1:
+                pa = [cat[0], pa[1]]
         if len(pa) == 2 and isinstance(pa[0], ast.BinOp) and isinstance(pa[0].op, ast.Add) and pn is not None:
             def side_of(e):
                 for k, sc in sides.items():
